@@ -1,11 +1,19 @@
 (** * gen/SrcBigint.v = model/Bigint.v : the arithmetic half of src/bigint.rs
     (scalar_mul, small_add_from, small_add, small_mul, large_add_from, large_add, long_mul,
-    large_mul, pow).
+    large_mul, pow; `Bigint::pow` is in proofs/SrcEqBigintC.v).
 
     Every theorem [rs_<name>_eq] states that the Gallina text generated from the Rust source by
     tools/rs2coq equals the hand-written model function, for every build mode, both vector
     back-ends ([alloc c]), all tables and limits, under range hypotheses only:
-    limbs are u64 ([limbs_ok]), `usize` values are non-negative, lengths are below 2^64. *)
+    - limbs and scalar operands are u64 ([limbs_ok], [u64_ok]) where the source multiplies in u128
+      (small_mul and everything built on it); the additions need no such hypothesis;
+    - `usize` values are non-negative ([0 <= start]) and lengths / sums of lengths that the source
+      computes in `usize` are below 2^64 (the model computes them in Z);
+    - for `pow`: the exponent is a u32, the table entries are u64, [0 < LARGE_POW5_STEP T].
+    [start <= vlen v] is NOT needed for small_add_from / large_add_from.
+    Where a hypothesis is necessary, an [Example] next to the theorem gives the counterexample
+    ([rs_small_add_from_neg_start], [rs_large_add_from_neg_start],
+    [rs_large_add_from_usize_overflow], [rs_pow_zero_step]). *)
 From Coq Require Import ZArith List Bool Lia Znumtheory.
 From Coq Require Import ZifyBool.
 From ML Require Import base.RustSem model.Fmt model.Vec model.Number model.Bigint model.SrcLib.
@@ -58,11 +66,11 @@ Proof.
   unfold zlen. rewrite Nat2Z.id, list_set_app_mid. reflexivity.
 Qed.
 
-(** ** scalar operations *)
-Lemma rs_scalar_add_eq b x y : rs_scalar_add b x y = Ok (scalar_add x y).
+(** ** scalar operations (also proved in proofs/SrcEqBigintA.v; local copies, hence the suffix) *)
+Lemma rs_scalar_add_eq_local b x y : rs_scalar_add b x y = Ok (scalar_add x y).
 Proof. reflexivity. Qed.
 
-Theorem rs_scalar_mul_eq : forall b x y carry, u64_ok x -> u64_ok y -> u64_ok carry ->
+Lemma rs_scalar_mul_eq_local : forall b x y carry, u64_ok x -> u64_ok y -> u64_ok carry ->
   rs_scalar_mul b x y carry = Ok (scalar_mul x y carry).
 Proof.
   intros b x y carry Hx Hy Hc. unfold rs_scalar_mul, scalar_mul, u128_mul, u128_add, u128_shr, as_u128.
@@ -114,7 +122,7 @@ Proof.
     destruct (mul_carry (vl v) y 0) as [l carry]. cbn [fst snd].
     destruct (negb (carry =? 0)); [|reflexivity].
     destruct (try_push (alloc c) (vset_list v l) carry); reflexivity.
-  - intros carry x Hc Hx. rewrite (rs_scalar_mul_eq b x y carry Hx Hy Hc). reflexivity.
+  - intros carry x Hc Hx. rewrite (rs_scalar_mul_eq_local b x y carry Hx Hy Hc). reflexivity.
   - unfold u64_ok. split; [lia|reflexivity].
 Qed.
 
@@ -155,7 +163,7 @@ Proof.
     + replace (zlen pre <? zlen pre + (zlen r + 1)) with true by lia.
       destruct (scalar_add x carry) as [s cf] eqn:Es.
       specialize (IH (pre ++ [s]) (if cf then 1 else 0) fuel (mkVec (pre ++ s :: r) (vcap v))).
-      rewrite !zlen_app, zlen_cons, zlen_nil in IH. cbn [vl vcap] in IH.
+      rewrite !zlen_app, zlen_cons, (@zlen_nil Z) in IH. cbn [vl vcap] in IH.
       destruct IH as [i' E].
       * rewrite <- app_assoc. reflexivity.
       * cbn [length] in Hf. lia.
@@ -276,34 +284,33 @@ Proof.
     rewrite (vec_get_mid v pre xi xs Ev). heads.
     rewrite (vec_set_mid v pre xi xs _ Ev). heads.
     destruct (scalar_add xi yi) as [s c1]. cbn [fst snd].
-    assert (E2 : ('(tmp, v2) <- (if carry then
-                        t5 <- vec_get (mkVec (pre ++ s :: xs) (vcap v)) (zlen pre) ;;
-                        v2 <- vec_set (mkVec (pre ++ s :: xs) (vcap v)) (zlen pre) (fst (scalar_add t5 1)) ;;
-                        Ok (c1 || snd (scalar_add t5 1), v2)
-                      else Ok (c1, (mkVec (pre ++ s :: xs) (vcap v)))) ;;
-                   Ok (Next (R := Empty_set) (tmp, v2)))
-                = Ok (Next (c1 || snd (if carry then scalar_add s 1 else (s, false)),
-                            mkVec (pre ++ fst (if carry then scalar_add s 1 else (s, false)) :: xs) (vcap v)))).
-    { destruct carry.
-      - rewrite (vec_get_mid (mkVec (pre ++ s :: xs) (vcap v)) pre s xs eq_refl). heads.
-        rewrite (vec_set_mid (mkVec (pre ++ s :: xs) (vcap v)) pre s xs _ eq_refl). heads. reflexivity.
-      - heads. cbn [fst snd]. rewrite orb_false_r. reflexivity. }
-    rewrite E2. heads. clear E2.
-    destruct (if carry then scalar_add s 1 else (s, false)) as [s' c2]. cbn [fst snd].
-    rewrite (IH xs (pre ++ [s']) (k + 1) (c1 || c2) (mkVec (pre ++ s' :: xs) (vcap v))).
-    + cbn [vcap]. destruct (add_lists xs ys (c1 || c2)) as [r cf]. cbn [fst snd].
-      rewrite <- app_assoc. reflexivity.
-    + cbn [vl]. rewrite <- app_assoc. reflexivity.
-    + intros _. rewrite zlen_app, zlen_cons, zlen_nil. lia.
-    + cbn [length] in Hlen. lia.
-    + rewrite !zlen_app, zlen_cons, zlen_nil. lia.
+    assert (Hfin : forall s' cc,
+      rs_for_iter (enumerate_from (k + 1) ys) body (cc, mkVec (pre ++ s' :: xs) (vcap v))
+      = Ok (inl (snd (let '(r, cf) := add_lists xs ys cc in (s' :: r, cf)),
+                 mkVec (pre ++ fst (let '(r, cf) := add_lists xs ys cc in (s' :: r, cf))) (vcap v), []))).
+    { intros s' cc.
+      rewrite (IH xs (pre ++ [s']) (k + 1) cc (mkVec (pre ++ s' :: xs) (vcap v))).
+      + cbn [vcap]. destruct (add_lists xs ys cc) as [r cf]. cbn [fst snd].
+        rewrite <- app_assoc. reflexivity.
+      + cbn [vl]. rewrite <- app_assoc. reflexivity.
+      + intros _. rewrite zlen_app, zlen_cons, (@zlen_nil Z). lia.
+      + cbn [length] in Hlen. lia.
+      + rewrite !zlen_app, zlen_cons, (@zlen_nil Z). lia. }
+    destruct carry.
+    + rewrite (vec_get_mid (mkVec (pre ++ s :: xs) (vcap v)) pre s xs eq_refl). heads.
+      rewrite (vec_set_mid (mkVec (pre ++ s :: xs) (vcap v)) pre s xs _ eq_refl). heads. cbn [vcap].
+      destruct (scalar_add s 1) as [s' c2]. cbn [fst snd]. apply Hfin.
+    + heads. rewrite orb_false_r. apply Hfin.
 Qed.
 
 Theorem rs_large_add_from_eq : forall c b v y start,
   0 <= start -> zlen (vl v) < 2 ^ 64 -> zlen y + start < 2 ^ 64 ->
   rs_large_add_from c b v y start = Ok (large_add_from c v y start).
 Proof.
-  intros c b v y start Hs Hlen Hsum. unfold rs_large_add_from. intro k1.
+  intros c b v y start Hs Hlen Hsum. unfold rs_large_add_from.
+  lazymatch goal with
+  | |- context [match try_resize _ _ _ _ with Some vx => @?F vx | None => _ end] => pose (k1 := F)
+  end.
   rewrite large_add_from_unfold.
   set (n := Z.to_nat start).
   assert (Hk1 : forall v1, zlen y <= zlen (skipn n (vl v1)) -> zlen (vl v1) < 2 ^ 64 ->
@@ -332,7 +339,7 @@ Proof.
     - rewrite firstn_skipn. exact Hl1. }
   unfold vlen.
   destruct (usize_saturating_sub (zlen (vl v)) start <? zlen y) eqn:E.
-  - rewrite usize_add_ok by (unfold u64_ok; pose proof (zlen_ge0 y); lia). heads.
+  - rewrite usize_add_ok at 1 by (unfold u64_ok; pose proof (zlen_ge0 y); lia). heads.
     destruct (try_resize (alloc c) v (zlen y + start) 0) as [v1|] eqn:Er; [|reflexivity].
     pose proof (large_add_prep_Some (alloc c) v y start v1 Hs) as P. unfold vlen in P.
     rewrite E in P. specialize (P Er). destruct P as [_ [P1 [P2 _]]].
@@ -361,3 +368,470 @@ Proof.
   intros. unfold rs_large_add, large_add. rewrite rs_large_add_from_eq by (lia || assumption).
   reflexivity.
 Qed.
+
+(** the hypothesis [zlen y + start < 2 ^ 64] is needed: `y.len() + start` is computed in `usize`
+    before the resize; the model computes it in Z *)
+Example rs_large_add_from_usize_overflow :
+  rs_large_add_from CFG_s release_build (mkVec [5] 62) [1] (2 ^ 64 - 1) = Panic PkUnwrap /\
+  rs_large_add_from CFG_s checked_build (mkVec [5] 62) [1] (2 ^ 64 - 1) = Panic PkOverflow /\
+  large_add_from CFG_s (mkVec [5] 62) [1] (2 ^ 64 - 1) = None.
+Proof. vm_compute. auto. Qed.
+
+(** ** normalize, local copy (also in proofs/SrcEqBigintA.v) (the `while let Some(&value) = x.get(x.len().wrapping_sub(1))` loop) *)
+Lemma strip_zeros_cons x r : strip_zeros (x :: r) = if x =? 0 then strip_zeros r else x :: r.
+Proof. destruct x; reflexivity. Qed.
+
+Lemma normalize_loop (body : vec -> outcome (ctl vec Empty_set)) b :
+  (forall v, body v =
+     match slice_get_opt (vl v) (usize_wrapping_sub (vlen v) 1) with
+     | Some value =>
+         if value =? 0 then
+           t1 <- usize_sub b (vlen v) 1 ;; v' <- vec_set_len v t1 ;; Ok (Next v')
+         else Ok (Break v)
+     | None => Ok (Break v)
+     end) ->
+  forall r fuel cap, (length r < fuel)%nat -> zlen r < 2 ^ 64 ->
+  rs_loop fuel body (mkVec (rev r) cap) = Ok (inl (mkVec (rev (strip_zeros r)) cap)).
+Proof.
+  intros Hb. induction r as [|x r IH]; intros fuel cap Hf Hlen;
+    (destruct fuel as [|fuel]; [cbn [length] in Hf; lia|]); cbn [rs_loop]; rewrite Hb; unfold vlen; cbn [vl rev].
+  - unfold slice_get_opt. change (zlen (@nil Z)) with 0.
+    replace ((0 <=? usize_wrapping_sub 0 1) && (usize_wrapping_sub 0 1 <? 0)) with false by lia.
+    reflexivity.
+  - rewrite zlen_cons in Hlen. pose proof (zlen_ge0 r) as Hr.
+    assert (Hrev : zlen (rev r) = zlen r) by (unfold zlen; rewrite rev_length; reflexivity).
+    rewrite zlen_app, zlen_cons, (@zlen_nil Z), Hrev. unfold usize_wrapping_sub.
+    replace (zlen r + (0 + 1) - 1) with (zlen r) by lia.
+    rewrite wrapu_small by lia. rewrite <- Hrev at 1. rewrite slice_get_opt_mid.
+    rewrite strip_zeros_cons. destruct (x =? 0) eqn:Ex; [|reflexivity].
+    unfold usize_sub. replace (zlen r + (0 + 1) - 1) with (zlen r) by lia.
+    rewrite uop_ok by (apply in_u_n; lia). heads.
+    unfold vec_set_len. cbn [vl vcap]. rewrite zlen_app, zlen_cons, (@zlen_nil Z), Hrev.
+    replace ((0 <=? zlen r) && (zlen r <=? zlen r + (0 + 1))) with true by lia. heads.
+    replace (Z.to_nat (zlen r)) with (length (rev r)) by (unfold zlen in *; lia).
+    rewrite firstn_app_exact by reflexivity.
+    apply IH; [cbn [length] in Hf; lia | lia].
+Qed.
+
+Lemma rs_bigint_normalize_eq_local : forall b v, zlen (vl v) < 2 ^ 64 ->
+  rs_bigint_normalize b v = Ok (vset_list v (normalize_list (vl v))).
+Proof.
+  intros b v Hlen. unfold rs_bigint_normalize, normalize_list, vset_list.
+  match goal with |- context [rs_loop ?f ?bd ?st] => set (body := bd) end.
+  rewrite <- (vec_eta v) at 2. rewrite <- (rev_involutive (vl v)) at 2.
+  rewrite (normalize_loop body b).
+  - heads. cbn [no_return]. reflexivity.
+  - intros v0. unfold body. reflexivity.
+  - rewrite rev_length. lia.
+  - unfold zlen in *. rewrite rev_length. exact Hlen.
+Qed.
+
+(** ** long_mul *)
+(** one step of the loop of `long_mul` on the model side: ranges and lengths are preserved *)
+Lemma small_mul_facts c v y v' : limbs_ok (vl v) -> u64_ok y -> small_mul c v y = Some v' ->
+  limbs_ok (vl v') /\ zlen (vl v') <= zlen (vl v) + 1.
+Proof.
+  intros Hl Hy E. apply small_mul_spec in E; [|exact Hl|exact Hy].
+  destruct E as [_ [O [Len _]]]. split; [exact O|].
+  destruct (_ <=? _) in Len; lia.
+Qed.
+
+Lemma large_add_from_facts c v y start v' :
+  limbs_ok (vl v) -> limbs_ok y -> 0 <= start -> large_add_from c v y start = Some v' ->
+  limbs_ok (vl v') /\ zlen (vl v') <= Z.max (zlen (vl v)) (zlen y + start) + 1.
+Proof.
+  intros Hl Hy Hs E. apply large_add_from_spec in E; [|exact Hl|exact Hy|exact Hs].
+  cbv zeta in E. destruct E as [_ [O [_ [Len _]]]]. split; [exact O|].
+  assert (large_add_len v y start <= Z.max (zlen (vl v)) (zlen y + start)).
+  { unfold large_add_len. destruct (_ <? _); lia. }
+  destruct (_ <=? _) in Len; lia.
+Qed.
+
+Lemma long_mul_for (body : vec -> Z * Z -> outcome (ctl vec (option vec))) c L b x :
+  (forall z index yi,
+     body z (index, yi) =
+       if negb (yi =? 0) then
+         match try_from (alloc c) L x with
+         | None => Ok (Return None)
+         | Some zi =>
+             t5 <- rs_small_mul c b zi yi ;;
+             match t5 with
+             | None => Ok (Return None)
+             | Some zi' =>
+                 t6 <- rs_large_add_from c b z (vl zi') index ;;
+                 match t6 with
+                 | None => Ok (Return None)
+                 | Some z' => Ok (Next z')
+                 end
+             end
+         end
+       else Ok (Next z)) ->
+  limbs_ok x ->
+  forall ys k z, limbs_ok ys -> limbs_ok (vl z) -> 0 <= k ->
+  zlen (vl z) <= zlen x + k + 1 -> zlen x + k + zlen ys + 1 < 2 ^ 64 ->
+  rs_for_iter (enumerate_from k ys) body z
+    = Ok (match long_mul_loop c L x ys k z with Some z' => inl (z', []) | None => inr None end) /\
+  (forall z', long_mul_loop c L x ys k z = Some z' ->
+     limbs_ok (vl z') /\ zlen (vl z') <= zlen x + k + zlen ys + 1).
+Proof.
+  intros Hb Hx. induction ys as [|yi ys IH]; intros k z Hys Hz Hk Hlz Hmax.
+  - cbn [enumerate_from rs_for_iter]. rewrite long_mul_loop_nil. split; [reflexivity|].
+    intros z' [= <-]. split; [exact Hz|]. rewrite (@zlen_nil Z). lia.
+  - cbn [enumerate_from rs_for_iter]. rewrite long_mul_loop_cons, Hb.
+    apply limbs_ok_cons in Hys. destruct Hys as [Hyi Hys].
+    rewrite zlen_cons in Hmax |- *. pose proof (zlen_ge0 ys) as Hy0. pose proof (zlen_ge0 x) as Hx0.
+    destruct (negb (yi =? 0)).
+    + destruct (try_from (alloc c) L x) as [zi|] eqn:Et; [|cbn [bind]; split; [reflexivity|discriminate]].
+      apply try_from_Some in Et. destruct Et as [Ezi _].
+      rewrite rs_small_mul_eq by (rewrite ?Ezi; assumption). cbn [bind].
+      destruct (small_mul c zi yi) as [zi'|] eqn:Es; [|cbn [bind]; split; [reflexivity|discriminate]].
+      apply small_mul_facts in Es; [|rewrite Ezi; exact Hx|exact Hyi]. rewrite Ezi in Es.
+      destruct Es as [Ozi Lzi].
+      rewrite rs_large_add_from_eq by lia. cbn [bind].
+      destruct (large_add_from c z (vl zi') k) as [z'|] eqn:El; [|cbn [bind]; split; [reflexivity|discriminate]].
+      apply large_add_from_facts in El; [|assumption..]. destruct El as [Oz' Lz'].
+      cbn [bind]. destruct (IH (k + 1) z' Hys Oz' ltac:(lia) ltac:(lia) ltac:(lia)) as [IH1 IH2].
+      split; [exact IH1|]. intros z2 E2. specialize (IH2 z2 E2). split; [tauto|lia].
+    + cbn [bind]. destruct (IH (k + 1) z Hys Hz ltac:(lia) ltac:(lia) ltac:(lia)) as [IH1 IH2].
+      split; [exact IH1|]. intros z2 E2. specialize (IH2 z2 E2). split; [tauto|lia].
+Qed.
+
+Lemma normalize_list_length l : zlen (normalize_list l) <= zlen l.
+Proof. destruct (normalize_list_spec l) as [_ [_ [_ [H _]]]]. unfold zlen. lia. Qed.
+
+Lemma normalize_list_limbs_ok l : limbs_ok l -> limbs_ok (normalize_list l).
+Proof. destruct (normalize_list_spec l) as [_ [_ [H _]]]. exact H. Qed.
+
+Lemma slice_get_0 x l : slice_get (x :: l) 0 = Ok x.
+Proof.
+  unfold slice_get, slice_get_opt. rewrite zlen_cons. pose proof (zlen_ge0 l).
+  replace ((0 <=? 0) && (0 <? zlen l + 1)) with true by lia. reflexivity.
+Qed.
+
+Theorem rs_long_mul_eq_facts : forall c L b x y,
+  limbs_ok x -> limbs_ok y -> zlen x + zlen y + 1 < 2 ^ 64 ->
+  rs_long_mul c L b x y = Ok (long_mul c L x y) /\
+  (forall z, long_mul c L x y = Some z -> limbs_ok (vl z) /\ zlen (vl z) <= zlen x + zlen y + 1).
+Proof.
+  intros c L b x y Hx Hy Hlen. unfold rs_long_mul. cbv zeta. rewrite long_mul_unfold.
+  pose proof (zlen_ge0 x) as Hx0. pose proof (zlen_ge0 y) as Hy0.
+  destruct (try_from (alloc c) L x) as [z0|] eqn:Et; [|split; [reflexivity|discriminate]].
+  destruct (try_from_Some _ _ _ _ Et) as [Ez0 _].
+  assert (Hnorm : forall z, limbs_ok (vl z) -> zlen (vl z) <= zlen x + zlen y + 1 ->
+            (v_z <- rs_bigint_normalize b z ;; Ok (Some v_z)) = Ok (Some (vset_list z (normalize_list (vl z)))) /\
+            forall z', Some (vset_list z (normalize_list (vl z))) = Some z' ->
+              limbs_ok (vl z') /\ zlen (vl z') <= zlen x + zlen y + 1).
+  { intros z Oz Lz. split.
+    - rewrite rs_bigint_normalize_eq_local by lia. reflexivity.
+    - intros z' [= <-]. cbn [vset_list vl]. split; [apply normalize_list_limbs_ok, Oz|].
+      pose proof (normalize_list_length (vl z)). lia. }
+  destruct y as [|y0 ys].
+  - cbn [negb]. change (zlen (@nil Z) =? 0) with true. cbn [negb].
+    apply Hnorm; rewrite Ez0; [exact Hx|lia].
+  - apply limbs_ok_cons in Hy. destruct Hy as [Hy0' Hys].
+    rewrite zlen_cons in *. pose proof (zlen_ge0 ys) as Hys0.
+    replace (zlen ys + 1 =? 0) with false by lia. cbn [negb].
+    rewrite slice_get_0. cbn [bind].
+    rewrite rs_small_mul_eq by (rewrite ?Ez0; assumption). cbn [bind].
+    destruct (small_mul c z0 y0) as [z1|] eqn:Es; [|split; [reflexivity|discriminate]].
+    apply small_mul_facts in Es; [|rewrite Ez0; exact Hx|exact Hy0']. rewrite Ez0 in Es.
+    destruct Es as [Oz1 Lz1].
+    cbn [enumerate_from skipn].
+    match goal with |- context [rs_for ?l ?bd ?st] => set (body := bd) end.
+    unfold rs_for.
+    destruct (long_mul_for body c L b x) with (ys := ys) (k := 0 + 1) (z := z1) as [E1 E2];
+      try assumption; try lia.
+    { intros z index yi. unfold body. rewrite Et. reflexivity. }
+    rewrite E1. change (0 + 1) with 1 in *.
+    destruct (long_mul_loop c L x ys 1 z1) as [z2|]; cbn [bind]; [|split; [reflexivity|discriminate]].
+    destruct (E2 z2 eq_refl) as [Oz2 Lz2].
+    apply Hnorm; [exact Oz2|lia].
+Qed.
+
+Theorem rs_long_mul_eq : forall c L b x y,
+  limbs_ok x -> limbs_ok y -> zlen x + zlen y + 1 < 2 ^ 64 ->
+  rs_long_mul c L b x y = Ok (long_mul c L x y).
+Proof. intros. apply rs_long_mul_eq_facts; assumption. Qed.
+
+Example rs_long_mul_example :
+  rs_long_mul CFG_s LIMITS checked_build (repeat (2 ^ 64 - 1) 31) (repeat (2 ^ 64 - 1) 32) = Ok None /\
+  rs_long_mul CFG_s LIMITS release_build [2 ^ 64 - 1; 2 ^ 64 - 1] [2 ^ 64 - 1; 0; 1; 0]
+    = Ok (Some (mkVec [1; 2 ^ 64 - 1; 2 ^ 64 - 3; 0; 1] 62)).
+Proof. vm_compute. auto. Qed.
+
+(** ** large_mul *)
+Theorem rs_large_mul_eq_facts : forall c L b v y,
+  limbs_ok (vl v) -> limbs_ok y -> zlen (vl v) + zlen y + 1 < 2 ^ 64 ->
+  rs_large_mul c L b v y = Ok (large_mul c L v y) /\
+  (forall v', large_mul c L v y = Some v' ->
+     limbs_ok (vl v') /\ zlen (vl v') <= zlen (vl v) + zlen y + 1).
+Proof.
+  intros c L b v y Hv Hy Hlen. unfold rs_large_mul. cbv zeta. rewrite large_mul_unfold.
+  assert (Hlong : (t3 <- rs_long_mul c L b y (vl v) ;;
+                   match t3 with Some t4 => Ok (Some t4) | None => Ok None end)
+                  = Ok (long_mul c L y (vl v)) /\
+                  (forall v', long_mul c L y (vl v) = Some v' ->
+                     limbs_ok (vl v') /\ zlen (vl v') <= zlen (vl v) + zlen y + 1)).
+  { destruct (rs_long_mul_eq_facts c L b y (vl v) Hy Hv ltac:(lia)) as [E F].
+    rewrite E. cbn [bind]. split; [destruct (long_mul c L y (vl v)); reflexivity|].
+    intros v' Ev'. specialize (F v' Ev'). split; [tauto|lia]. }
+  destruct y as [|y0 [|y1 ys]].
+  - change (zlen (@nil Z) =? 1) with false. cbv iota. exact Hlong.
+  - change (zlen [y0] =? 1) with true. cbv iota. rewrite slice_get_0. cbn [bind].
+    apply limbs_ok_cons in Hy. destruct Hy as [Hy0 _].
+    rewrite rs_small_mul_eq by assumption. cbn [bind]. split.
+    + destruct (small_mul c v y0); reflexivity.
+    + intros v' Ev'. apply small_mul_facts in Ev'; [|assumption..].
+      change (zlen [y0]) with 1. split; [tauto|lia].
+  - rewrite !zlen_cons in *. pose proof (zlen_ge0 ys).
+    replace (zlen ys + 1 + 1 =? 1) with false by lia. cbv iota. exact Hlong.
+Qed.
+
+Theorem rs_large_mul_eq : forall c L b v y,
+  limbs_ok (vl v) -> limbs_ok y -> zlen (vl v) + zlen y + 1 < 2 ^ 64 ->
+  rs_large_mul c L b v y = Ok (large_mul c L v y).
+Proof. intros. apply rs_large_mul_eq_facts; assumption. Qed.
+
+Example rs_large_mul_example :
+  rs_large_mul CFG_s LIMITS checked_build (mkVec (repeat (2 ^ 64 - 1) 62) 62) [2] = Ok None /\
+  rs_large_mul CFG_sa LIMITS release_build (mkVec [2 ^ 64 - 1; 2 ^ 64 - 1] 2) [2 ^ 64 - 1; 0; 1; 0]
+    = Ok (Some (mkVec [1; 2 ^ 64 - 1; 2 ^ 64 - 3; 0; 1] 62)).
+Proof. vm_compute. auto. Qed.
+
+(** ** pow *)
+(** the table entries are limbs / u64 values (by their Rust types `[Limb; N]`, `[u64; N]`) *)
+Definition pow_tables_ok (T : tables) : Prop :=
+  limbs_ok (LARGE_POW5 T) /\ limbs_ok (SMALL_INT_POW5 T).
+
+Lemma pow_tables_ok_TABLES : pow_tables_ok TABLES.
+Proof. split; apply limbs_ok_forallb; vm_compute; reflexivity. Qed.
+
+Lemma int_pow_fast_path_u64 c T b k sp :
+  (compact c = false -> limbs_ok (SMALL_INT_POW5 T)) ->
+  int_pow_fast_path c T b k false = Ok sp -> u64_ok sp.
+Proof.
+  intros HT. unfold int_pow_fast_path. destruct (compact c).
+  - apply uop_range. lia.
+  - specialize (HT eq_refl). unfold index_unchecked. destruct (_ && _) eqn:E; [|discriminate]. intros [= <-].
+    apply (limbs_ok_u64 _ _ HT). apply nth_In. lia.
+Qed.
+
+Lemma u32_sub_ok b x y : 0 <= x - y < 2 ^ 32 -> u32_sub b x y = Ok (x - y).
+Proof. intros. apply uop_ok, in_u_n, H. Qed.
+
+(** `while exp >= LARGE_POW5_STEP { large_mul(x, &LARGE_POW5)?; exp -= LARGE_POW5_STEP; }` *)
+Lemma pow_large_for (body : Z * vec -> outcome (ctl (Z * vec) (option vec))) c T L b :
+  (forall e v,
+     body (e, v) =
+       if LARGE_POW5_STEP T <=? e then
+         t1 <- rs_large_mul c L b v (LARGE_POW5 T) ;;
+         match t1 with
+         | None => Ok (Return None)
+         | Some v' => t2 <- u32_sub b e (LARGE_POW5_STEP T) ;; Ok (Next (t2, v'))
+         end
+       else Ok (Break (e, v))) ->
+  limbs_ok (LARGE_POW5 T) -> 0 < LARGE_POW5_STEP T ->
+  forall fuel e v, limbs_ok (vl v) -> 0 <= e < 2 ^ 32 ->
+  (Z.to_nat (e / LARGE_POW5_STEP T) < fuel)%nat ->
+  zlen (vl v) + (e / LARGE_POW5_STEP T) * (zlen (LARGE_POW5 T) + 1) < 2 ^ 64 ->
+  rs_loop fuel body (e, v)
+    = Ok (match pow_large_loop c T L fuel v e with
+          | Some (v', e') => inl (e', v') | None => inr None end) /\
+  (forall v' e', pow_large_loop c T L fuel v e = Some (v', e') -> limbs_ok (vl v') /\ 0 <= e' <= e).
+Proof.
+  intros Hb HLP Hstep. set (s := LARGE_POW5_STEP T) in *. set (W := zlen (LARGE_POW5 T) + 1).
+  assert (HW : 0 < W) by (unfold W; pose proof (zlen_ge0 (LARGE_POW5 T)); lia).
+  induction fuel as [|fuel IH]; intros e v Hv He Hf Hlen; [lia|].
+  cbn [rs_loop]. rewrite Hb, pow_large_loop_eq. fold s.
+  destruct (s <=? e) eqn:Ese.
+  - assert (Hq : (e - s) / s = e / s - 1) by (apply div_sub_step; exact Hstep).
+    assert (Hq1 : 1 <= e / s) by (apply Z.div_le_lower_bound; lia).
+    assert (HqW : (e / s - 1) * W = e / s * W - W) by ring.
+    assert (HqW1 : W <= e / s * W) by nia.
+    destruct (rs_large_mul_eq_facts c L b v (LARGE_POW5 T) Hv HLP ltac:(unfold W in *; lia)) as [E F].
+    rewrite E. cbn [bind].
+    destruct (large_mul c L v (LARGE_POW5 T)) as [v'|] eqn:Em; cbn [bind];
+      [|split; [reflexivity|discriminate]].
+    destruct (F v' eq_refl) as [Ov' Lv'].
+    rewrite u32_sub_ok by lia. cbn [bind].
+    destruct (IH (e - s) v' Ov' ltac:(lia)) as [IH1 IH2].
+    + rewrite Hq. lia.
+    + rewrite Hq, HqW. unfold W in *. lia.
+    + split; [exact IH1|]. intros v2 e2 E2. specialize (IH2 v2 e2 E2). split; [tauto|lia].
+  - cbn [bind]. split; [reflexivity|]. intros v' e' [= <- <-]. split; [exact Hv|lia].
+Qed.
+
+(** `while exp >= small_step { small_mul(x, max_native)?; exp -= small_step; }` *)
+Lemma pow_small_for (body : Z * vec -> outcome (ctl (Z * vec) (option vec))) c b :
+  (forall e v,
+     body (e, v) =
+       if small_step <=? e then
+         t4 <- rs_small_mul c b v max_native5 ;;
+         match t4 with
+         | None => Ok (Return None)
+         | Some v' => t5 <- u32_sub b e small_step ;; Ok (Next (t5, v'))
+         end
+       else Ok (Break (e, v))) ->
+  forall fuel e v, limbs_ok (vl v) -> 0 <= e < 2 ^ 32 ->
+  (Z.to_nat (e / small_step) < fuel)%nat ->
+  rs_loop fuel body (e, v)
+    = Ok (match pow_small_loop c fuel v e with
+          | Some (v', e') => inl (e', v') | None => inr None end) /\
+  (forall v' e', pow_small_loop c fuel v e = Some (v', e') -> limbs_ok (vl v')).
+Proof.
+  intros Hb. unfold small_step in *.
+  induction fuel as [|fuel IH]; intros e v Hv He Hf; [lia|].
+  cbn [rs_loop]. rewrite Hb, pow_small_loop_eq. unfold small_step.
+  destruct (27 <=? e) eqn:Ese.
+  - assert (Hq : (e - 27) / 27 = e / 27 - 1) by (apply div_sub_step; lia).
+    assert (Hq1 : 1 <= e / 27) by (apply Z.div_le_lower_bound; lia).
+    rewrite rs_small_mul_eq by (assumption || (vm_compute; split; congruence)). cbn [bind].
+    destruct (small_mul c v max_native5) as [v'|] eqn:Em; cbn [bind];
+      [|split; [reflexivity|discriminate]].
+    apply small_mul_facts in Em; [|exact Hv|vm_compute; split; congruence]. destruct Em as [Ov' _].
+    rewrite u32_sub_ok by lia. cbn [bind].
+    apply (IH (e - 27) v' Ov'); [lia|]. rewrite Hq. lia.
+  - cbn [bind]. split; [reflexivity|]. intros v' e' [= <- <-]. exact Hv.
+Qed.
+
+Theorem rs_pow_eq_facts : forall c T L b v e,
+  (compact c = false ->
+     pow_tables_ok T /\ 0 < LARGE_POW5_STEP T /\
+     zlen (vl v) + (e / LARGE_POW5_STEP T) * (zlen (LARGE_POW5 T) + 1) < 2 ^ 64) ->
+  limbs_ok (vl v) -> 0 <= e < 2 ^ 32 ->
+  rs_pow c T L b v e = pow5 c T L b v e /\
+  (forall v', pow5 c T L b v e = Ok (Some v') -> limbs_ok (vl v')).
+Proof.
+  intros c T L b v e Hnc Hv He.
+  assert (HSP : compact c = false -> limbs_ok (SMALL_INT_POW5 T)) by (intros H; apply Hnc, H).
+  cbv beta delta [rs_pow].
+  lazymatch goal with
+  | |- (let k := ?f in @?g k) = ?r /\ ?Q => pose (k1 := f); change (g k1 = r /\ Q); cbv beta
+  end.
+  unfold pow5.
+  (* the part after the large-power loop *)
+  assert (Hk1 : forall e1 v1, limbs_ok (vl v1) -> 0 <= e1 < 2 ^ 32 ->
+    k1 (e1, v1) =
+      obind (Ok (pow_small_loop c (S (Z.to_nat (e1 / small_step))) v1 e1))
+        (fun x => let '(v2, e2) := x in
+           if negb (e2 =? 0)
+           then sp <- int_pow_fast_path c T b (as_usize e2) false ;; Ok (small_mul c v2 sp)
+           else Ok (Some v2)) /\
+    (forall v', obind (Ok (pow_small_loop c (S (Z.to_nat (e1 / small_step))) v1 e1))
+        (fun x => let '(v2, e2) := x in
+           if negb (e2 =? 0)
+           then sp <- int_pow_fast_path c T b (as_usize e2) false ;; Ok (small_mul c v2 sp)
+           else Ok (Some v2)) = Ok (Some v') -> limbs_ok (vl v'))).
+  { intros e1 v1 Hv1 He1. unfold k1. cbv zeta beta iota.
+    match goal with |- context [rs_loop ?f ?bd ?st] => set (body := bd) end.
+    destruct (pow_small_for body c b) with (fuel := S (Z.to_nat (e1 / 27))) (e := e1) (v := v1)
+      as [E F]; try assumption.
+    { intros e0 v0. unfold body. reflexivity. }
+    { unfold small_step. lia. }
+    rewrite E. unfold obind, small_step in *. cbn [bind].
+    destruct (pow_small_loop c (S (Z.to_nat (e1 / 27))) v1 e1) as [[v2 e2]|];
+      [|split; [reflexivity|discriminate]].
+    specialize (F v2 e2 eq_refl).
+    destruct (negb (e2 =? 0)); [|split; [reflexivity|intros v' [= <-]; exact F]].
+    destruct (int_pow_fast_path c T b (as_usize e2) false) as [sp| |] eqn:Esp; cbn [bind];
+      [|split; [reflexivity|discriminate]..].
+    pose proof (int_pow_fast_path_u64 c T b _ sp HSP Esp) as Hsp.
+    rewrite rs_small_mul_eq by assumption. cbn [bind]. split.
+    - destruct (small_mul c v2 sp); reflexivity.
+    - intros v' [= Ev']. apply small_mul_facts in Ev'; [tauto|assumption..]. }
+  clear HSP. destruct (compact c).
+  - unfold obind at 1. cbn [bind]. apply Hk1; assumption.
+  - destruct (Hnc eq_refl) as [[HLP _] [Hstep Hlen]].
+    replace (LARGE_POW5_STEP T <=? 0) with false by lia.
+    match goal with |- context [rs_loop ?f ?bd ?st] => set (body := bd) end.
+    destruct (pow_large_for body c T L b) with (fuel := S (Z.to_nat (e / LARGE_POW5_STEP T)))
+      (e := e) (v := v) as [E F]; try assumption.
+    { intros e0 v0. unfold body. reflexivity. }
+    { lia. }
+    rewrite E. unfold obind at 1. unfold obind at 2. cbn [bind].
+    destruct (pow_large_loop c T L (S (Z.to_nat (e / LARGE_POW5_STEP T))) v e) as [[v1 e1]|];
+      [|split; [reflexivity|discriminate]].
+    destruct (F v1 e1 eq_refl) as [Ov1 He1].
+    apply Hk1; [assumption|lia].
+Qed.
+
+(** `pow(x, exp)` (multiply by 5^exp).  [e] is a `u32`; the tables hold u64 values; the step is
+    positive (it is 135); the last hypothesis says that the vector cannot outgrow `usize`:
+    each multiplication by LARGE_POW5 adds at most its length + 1 limbs. *)
+Theorem rs_pow_eq : forall c T L b v e,
+  pow_tables_ok T -> 0 < LARGE_POW5_STEP T ->
+  limbs_ok (vl v) -> 0 <= e < 2 ^ 32 ->
+  zlen (vl v) + (e / LARGE_POW5_STEP T) * (zlen (LARGE_POW5 T) + 1) < 2 ^ 64 ->
+  rs_pow c T L b v e = pow5 c T L b v e.
+Proof. intros. apply rs_pow_eq_facts; auto. Qed.
+
+(** compact builds (`feature = "compact"`): no large-power loop, no table *)
+Theorem rs_pow_eq_compact : forall c T L b v e,
+  compact c = true -> limbs_ok (vl v) -> 0 <= e < 2 ^ 32 ->
+  rs_pow c T L b v e = pow5 c T L b v e.
+Proof. intros c T L b v e Hc Hv He. apply rs_pow_eq_facts; try assumption. rewrite Hc. discriminate. Qed.
+
+(** with the crate's tables: any vector of fewer than 2^63 limbs *)
+Corollary rs_pow_eq_TABLES : forall c L b v e,
+  limbs_ok (vl v) -> 0 <= e < 2 ^ 32 -> zlen (vl v) < 2 ^ 63 ->
+  rs_pow c TABLES L b v e = pow5 c TABLES L b v e.
+Proof.
+  intros c L b v e Hv He Hlen. apply rs_pow_eq; try assumption.
+  - apply pow_tables_ok_TABLES.
+  - reflexivity.
+  - change (LARGE_POW5_STEP TABLES) with 135. change (zlen (LARGE_POW5 TABLES) + 1) with 6.
+    rewrite pow2_32 in He. rewrite pow2_63 in Hlen. rewrite pow2_64. lia.
+Qed.
+
+(** the hypothesis [0 < LARGE_POW5_STEP T] is needed: with a zero step the Rust loop never
+    terminates by itself; the model reports [Panic PkFuel] outright, the translated text
+    runs the body once and so sees `large_mul` fail first *)
+Example rs_pow_zero_step :
+  let T0 := mkTables (-342) 308 [] (SMALL_INT_POW5 TABLES) [] [] [] (LARGE_POW5 TABLES) 0 in
+  let full := mkVec (repeat (2 ^ 64 - 1) 62) 62 in
+  rs_pow CFG_s T0 LIMITS release_build full 5 = Ok None /\
+  pow5 CFG_s T0 LIMITS release_build full 5 = Panic PkFuel.
+Proof. vm_compute. auto. Qed.
+
+Example rs_pow_example :
+  (match rs_pow CFG_s TABLES LIMITS checked_build (mkVec [3] 62) 300 with
+   | Ok (Some v) => (lval (vl v) =? 3 * 5 ^ 300) && (vcap v =? 62)
+   | _ => false
+   end) = true /\
+  rs_pow CFG_s TABLES LIMITS checked_build (mkVec (repeat (2 ^ 64 - 1) 62) 62) 1 = Ok None.
+Proof. vm_compute. auto. Qed.
+
+(** ** the hypotheses are satisfiable *)
+Example hyps_small_add_from :
+  0 <= 1 /\ zlen (vl (mkVec [7; 2 ^ 64 - 1] 62)) < 2 ^ 64.
+Proof. split; [lia|reflexivity]. Qed.
+Example hyps_small_mul : limbs_ok (vl (mkVec [7; 2 ^ 64 - 1] 62)) /\ u64_ok (2 ^ 64 - 1).
+Proof. split; [apply limbs_ok_forallb; reflexivity|vm_compute; split; congruence]. Qed.
+Example hyps_large_add_from :
+  0 <= 3 /\ zlen (vl (mkVec [7; 2 ^ 64 - 1] 62)) < 2 ^ 64 /\ zlen [1; 2; 3] + 3 < 2 ^ 64.
+Proof. repeat split; try lia; reflexivity. Qed.
+Example hyps_long_mul :
+  limbs_ok [7; 2 ^ 64 - 1] /\ limbs_ok [0; 5; 2 ^ 64 - 1] /\
+  zlen [7; 2 ^ 64 - 1] + zlen [0; 5; 2 ^ 64 - 1] + 1 < 2 ^ 64.
+Proof. repeat split; try (apply limbs_ok_forallb; reflexivity); reflexivity. Qed.
+Example hyps_pow :
+  pow_tables_ok TABLES /\ 0 < LARGE_POW5_STEP TABLES /\ limbs_ok (vl (mkVec [3] 62)) /\
+  0 <= 300 < 2 ^ 32 /\
+  zlen (vl (mkVec [3] 62)) + (300 / LARGE_POW5_STEP TABLES) * (zlen (LARGE_POW5 TABLES) + 1) < 2 ^ 64.
+Proof.
+  split; [apply pow_tables_ok_TABLES|]. split; [reflexivity|].
+  split; [apply limbs_ok_forallb; reflexivity|]. split; [split; [lia|reflexivity]|reflexivity].
+Qed.
+
+Print Assumptions rs_scalar_mul_eq_local.
+Print Assumptions rs_small_add_from_eq.
+Print Assumptions rs_small_add_eq.
+Print Assumptions rs_small_mul_eq.
+Print Assumptions rs_large_add_from_eq.
+Print Assumptions rs_large_add_eq.
+Print Assumptions rs_bigint_normalize_eq_local.
+Print Assumptions rs_long_mul_eq.
+Print Assumptions rs_large_mul_eq.
+Print Assumptions rs_pow_eq.
+Print Assumptions rs_pow_eq_compact.
+Print Assumptions rs_pow_eq_TABLES.
